@@ -324,3 +324,31 @@ Proof.
 Qed.
 
 End Own.
+
+(* ---- the annotation keeps the block structure of the program ---- *)
+(* as many BEGIN blocks, rules, END blocks and functions as before; every rule keeps its pattern
+   and has an action body exactly when it had one; a BEGIN / END / function body is empty exactly
+   when it was empty.  (So "BEGIN-only program", "has an END block", "rule without action" --
+   the facts the interpreter's driver looks at -- are unchanged.) *)
+Theorem block_structure {E : Type} files mode (P : program E) : nocov_prog P = true ->
+  let A := fst (annotate files mode P) in
+  let same_shape := fun (l' l : list (cstmt E)) => l' = [] <-> l = [] in
+  Forall2 same_shape (p_begin A) (p_begin P)
+  /\ Forall2 same_shape (p_end A) (p_end P)
+  /\ Forall2 same_shape (p_funcs A) (p_funcs P)
+  /\ Forall2 (fun a' a => a_pat a' = a_pat a
+                /\ match a_body a', a_body a with
+                   | None, None => True
+                   | Some l', Some l => l' = [] <-> l = []
+                   | _, _ => False
+                   end) (p_actions A) (p_actions P).
+Proof.
+  intros Hn A same_shape. destruct (annotate_ok files mode P Hn) as [Hb Ha He Hf _ _ _]. fold A in Hb, Ha, He, Hf.
+  assert (HL : forall ls' ls, Forall2 (list_rel mode) ls' ls -> Forall2 same_shape ls' ls).
+  { induction 1 as [|l' l t' t (_ & _ & R3 & R4) _ IH]; constructor; [split; assumption|exact IH]. }
+  split; [apply HL; exact Hb|]. split; [apply HL; exact He|]. split; [apply HL; exact Hf|].
+  clear -Ha. induction Ha as [|a' a t' t [Hp Hb] _ IH]; constructor; [|exact IH].
+  split; [exact Hp|]. unfold body_rel in Hb.
+  destruct (a_body a) as [l|], (a_body a') as [l'|]; try contradiction; [|exact I].
+  destruct Hb as (Hemp & _). split; apply Hemp.
+Qed.
